@@ -1,353 +1,27 @@
 import Cppcms.Common
-import Cppcms.C03.Gen
-import Cppcms.C03.ConnWrite
-import Cppcms.C03.Framing
-import Cppcms.C03.Buffers
-import Cppcms.C03.Script
+import Cppcms.C03.Response
+import Cppcms.C03.WireModel
 /-!
 # C03 model, part 4: one response end to end
 
-`http::response` (`out()`, `setbuf`, `finalize`, header setters, `copy_to_cache`), the two ways
-a context completes a response (`complete_response`, `async_complete_response` +
-`connection::async_write_response`) and `cache_interface::fetch_page/store_page`, composed from
-the stream buffers (`Buffers.lean`), the protocol framing (`Framing.lean`) and the connection
-write path (`ConnWrite.lean`) under a socket schedule.
+Stage 1 (`Response.lean`): the application's script runs on the response object and yields the trace
+of what the response does to its connection.  Stage 2 (`WireModel.lean`): the trace is replayed on
+the connection under the socket schedule.  `runCase` is what the check compares, byte for byte, with
+the real server, and what `Props.response_wire_eq` is about.
 -/
 namespace Cppcms.C03
 open Cppcms
 
-/-! ## the connection as the device sees it -/
-
-/-- connection-side state: framing state of the protocol in use, write-path state, socket schedule -/
-structure Wire where
-  proto : Proto
-  http : HttpSt := { isHttp11 := false, clientKeepAlive := false }
-  fcgi : FcgiSt := { reqId := 1 }
-  scgi : ScgiSt := {}
-  conn : Conn := {}
-  sched : List SchedItem := []
-  /-- `format_output` raised `protocol_violation` (more body than the announced Content-Length) -/
-  violated : Bool := false
-  /-- ghost: every `(bytes, eof)` the device handed to `write`/`nonblocking_write` -/
-  calls : List (Bytes × Bool) := []
-  deriving Inhabited
-
-/-- `format_output` of the protocol in use -/
-def Wire.format (w : Wire) (inp : Bytes) (eof : Bool) : Wire × Bytes × Bool :=
-  match w.proto with
-  | .scgi => let r := scgiFormat w.scgi inp; ({ w with scgi := r.1 }, r.2, false)
-  | .fcgi => let r := fcgiFormat w.fcgi inp eof; ({ w with fcgi := r.1 }, r.2, false)
-  | .http _ _ => let r := httpFormat w.http inp eof; ({ w with http := r.1 }, r.2.1, r.2.2)
-
-/-- `set_response_headers` of the protocol in use (`service.generate_http_headers` is off) -/
-def Wire.setHeaders (w : Wire) (h : Headers) : Wire :=
-  match w.proto with
-  | .scgi => { w with scgi := { headers := xcgiHeaders false h, headersWritten := false } }
-  | .fcgi => { w with fcgi := { w.fcgi with responseHeaders := xcgiHeaders false h, headersWritten := false } }
-  | .http _ _ => { w with http := w.http.setHeaders h }
-
-/-- next answer of the socket for a `write_some` offering `total > 0` bytes.  On a blocking socket
-`w` cannot happen (the harness turns it into a one-byte accept). -/
-def nextAns (sched : List SchedItem) (total : Nat) (blocking : Bool) : Ans × List SchedItem :=
-  match sched with
-  | [] => (.accept total, [])
-  | .accept k :: rest => (.accept (if k = 0 then 1 else k), rest)
-  | .wouldBlock :: rest => (if blocking then .accept 1 else .wouldBlock, rest)
-  | .full :: rest => (.accept total, rest)
-
-/-- the schedule as the list of answers a blocking `write` will see -/
-def blockingAnswers (sched : List SchedItem) (total : Nat) : List Ans :=
-  sched.map fun
-    | .accept k => .accept (if k = 0 then 1 else k)
-    | .wouldBlock => .accept 1
-    | .full => .accept total
-
-/-- `output_device::do_write` = `connection::write` -/
-def Wire.sendBlocking (w : Wire) (inp : Bytes) (eof : Bool) : Wire × Bool :=
-  let w := { w with calls := w.calls ++ [(inp, eof)] }
-  let (w, data, viol) := w.format inp eof
-  if viol then ({ w with violated := true }, false)
-  else
-    let total := (w.conn.pending ++ data).length
-    let r := blockingWrite w.conn data (blockingAnswers w.sched total)
-    -- schedule items consumed = answers consumed
-    let used := w.sched.length - r.2.2.length
-    ({ w with conn := r.1, sched := w.sched.drop used }, r.2.1)
-
-/-- `async_io_buf::do_write` = `connection::nonblocking_write` -/
-def Wire.sendNonblocking (w : Wire) (inp : Bytes) (eof : Bool) : Wire × Bool :=
-  let w := { w with calls := w.calls ++ [(inp, eof)] }
-  let (w, data, viol) := w.format inp eof
-  if viol then ({ w with violated := true }, false)
-  else if nbWriteAsks w.conn data then
-    let (a, rest) := nextAns w.sched (w.conn.pending ++ data).length false
-    let r := nbWrite w.conn data a
-    ({ w with conn := r.1, sched := rest }, r.2 != .failed)
-  else ({ w with conn := (nbWrite w.conn data (.accept 0)).1 }, true)
-
-def blockingIf : ConnIf Wire := { send := Wire.sendBlocking, setHeaders := Wire.setHeaders }
-def nonblockingIf : ConnIf Wire := { send := Wire.sendNonblocking, setHeaders := Wire.setHeaders }
-
-/-- the event loop serving an armed `async_write_handler` until it completes -/
-def Wire.drain : Nat → Wire → Wire
-  | 0, w => w
-  | fuel + 1, w =>
-    match w.conn.inflight with
-    | none => w
-    | some out =>
-      let (a, rest) := nextAns w.sched out.length false
-      let r := asyncStep w.conn a
-      Wire.drain fuel { w with conn := r.1, sched := rest }
-
-/-- `connection::async_write(empty, false, h)` followed by the event loop until `h` runs -/
-def Wire.asyncWriteEmpty (w : Wire) : Wire :=
-  let (w, data, viol) := w.format [] false
-  if viol then { w with violated := true }
-  else
-    let asks := nbWriteAsks w.conn data
-    let (a, rest) := if asks then nextAns w.sched (w.conn.pending ++ data).length false else (.accept 0, w.sched)
-    let r := asyncWrite w.conn data a
-    let w := { w with conn := r.1, sched := rest }
-    -- every would-block costs one schedule item; afterwards the kernel takes what is offered
-    Wire.drain (w.sched.length + (w.conn.inflight.getD []).length + 2) w
-
-/-! ## the response object -/
-
-/-- the stand-in deflater of the harness (`zstub` cases): 'D' len(4) bytes for each feed with input,
-'S' for Z_SYNC_FLUSH, 'E' for Z_FINISH -/
-def stubDeflater : Deflater where
-  σ := Unit
-  init := ()
-  feed := fun _ input fl =>
-    let n := input.length
-    let d : Bytes := if n = 0 then [] else
-      [68, UInt8.ofNat (n / 16777216), UInt8.ofNat (n / 65536 % 256), UInt8.ofNat (n / 256 % 256), UInt8.ofNat (n % 256)] ++ input
-    ((), d ++ (match fl with | .noFlush => [] | .syncFlush => [83] | .finish => [69]))
-
-structure Config where
-  outputBuffer : Nat := Gen.defaultOutputBuffer
-  asyncOutputBuffer : Nat := Gen.defaultAsyncOutputBuffer
-  gzipBuffer : Int := -1
-  gzipEnable : Bool := true
-  deriving Repr, Inhabited
-
-structure Resp where
-  cfg : Config
-  mode : Mode
-  /-- request carried `Accept-Encoding: gzip` -/
-  acceptGzip : Bool
-  headers : Headers
-  requiredBufferSize : Int := -1
-  ostreamRequested : Bool := false
-  copyToCache : Bool := false
-  finalized : Bool := false
-  /-- `cache_interface::page_compression_used_` -/
-  pageCompressionUsed : Bool := false
-  gz : Option (Gz stubDeflater) := none
-  copy : Option Copy := none
-  dev : Dev := {}
-  /-- `d->buffered.full_buffering_` before the stream exists -/
-  asyncFullBuffering : Bool := true
+structure CaseResult (D : Deflater) where
+  run : Run D
   wire : Wire
 
-def sContentType : Bytes := b [67,111,110,116,101,110,116,45,84,121,112,101]
-def sContentEncoding : Bytes := b [67,111,110,116,101,110,116,45,69,110,99,111,100,105,110,103]
-def sContentLengthName : Bytes := b [67,111,110,116,101,110,116,45,76,101,110,103,116,104]
-def sStatus : Bytes := b [83,116,97,116,117,115]
-def sTextHtml : Bytes := b [116,101,120,116,47,104,116,109,108]
-def sTextSlash : Bytes := b [116,101,120,116,47]
-def sGzip : Bytes := b [103,122,105,112]
+/-- one request: the run of the script and the connection afterwards -/
+def runCaseWith (D : Deflater) (cfg : Config) (cache : PageCache) (cs : Case) : CaseResult D :=
+  let run := runScript D cfg cache cs.mode cs.gz cs.script
+  { run, wire := (Wire.init cs.proto cs.sched).replay (!cs.mode.isAsync) run.resp.trace }
 
-/-- `response::response`: Content-Type set (charset suppressed, X-Powered-By disabled in the harness configuration) -/
-def Resp.new (cfg : Config) (cs : Case) : Resp :=
-  let (v11, ka) := match cs.proto with | .http a c => (a, c) | _ => (false, false)
-  { cfg, mode := cs.mode, acceptGzip := cs.gz,
-    headers := ({} : Headers).set sContentType sTextHtml,
-    wire := { proto := cs.proto, http := { isHttp11 := v11, clientKeepAlive := ka }, sched := cs.sched } }
-
-def Resp.connIf (r : Resp) : ConnIf Wire := if r.mode.isAsync then nonblockingIf else blockingIf
-
-/-- `response::need_gzip` -/
-def Resp.needGzip (r : Resp) : Bool :=
-  r.mode == .normal && r.cfg.gzipEnable && r.acceptGzip && (r.headers.get sContentEncoding).isEmpty &&
-    (r.headers.get sContentType).take 5 == sTextSlash
-
-/-- push actions of `copy_buf` into the device -/
-def Resp.intoDev (r : Resp) (acts : List Act) : Resp :=
-  let x := r.dev.apply r.connIf r.wire acts
-  { r with dev := x.1, wire := x.2 }
-
-/-- push actions of `gzip_buf` into whatever is below it -/
-def Resp.belowGz (r : Resp) : List Act → Resp
-  | [] => r
-  | a :: rest =>
-    match r.copy with
-    | none => (r.intoDev [a]).belowGz rest
-    | some k =>
-      let x := match a with
-        | .put bs => k.xsputn bs
-        | .sync => k.sync
-      ({ r with copy := some x.1 }.intoDev x.2).belowGz rest
-
-/-- `response::out()` on first use -/
-def Resp.requestStream (r : Resp) : Resp :=
-  if r.ostreamRequested then r
-  else
-    let async := r.mode.isAsync
-    let dflt := if async then r.cfg.asyncOutputBuffer else r.cfg.outputBuffer
-    let bsize := if r.requiredBufferSize = -1 then dflt else r.requiredBufferSize.toNat
-    let dev : Dev := ({ isAsync := async, fullBuffering := if async then r.asyncFullBuffering else true,
-                        rawMode := r.mode.isRaw } : Dev).open bsize
-    let r := { r with dev, ostreamRequested := true }
-    let gzip := r.needGzip
-    let r := if gzip then { r with headers := r.headers.set sContentEncoding sGzip } else r
-    let r := if r.mode.isRaw then r else { r with wire := r.wire.setHeaders r.headers }
-    let r := if r.copyToCache then { r with copy := some {} } else r
-    if gzip then { r with gz := some (Gz.open stubDeflater r.cfg.gzipBuffer) } else r
-
-/-- `std::ostream::write` on `out()` -/
-def Resp.write (r : Resp) (s : Bytes) : Resp :=
-  let r := r.requestStream
-  match r.gz with
-  | some g => let x := g.xsputn s; { r with gz := some x.1 }.belowGz x.2
-  | none =>
-    match r.copy with
-    | some k => let x := k.xsputn s; { r with copy := some x.1 }.intoDev x.2
-    | none => let x := r.dev.xsputn r.connIf r.wire s; { r with dev := x.1, wire := x.2 }
-
-/-- `std::ostream::put` on `out()` -/
-def Resp.putc (r : Resp) (c : UInt8) : Resp :=
-  let r := r.requestStream
-  match r.gz with
-  | some g => let x := g.sputc c; { r with gz := some x.1 }.belowGz x.2
-  | none =>
-    match r.copy with
-    | some k => let x := k.sputc c; { r with copy := some x.1 }.intoDev x.2
-    | none => let x := r.dev.sputc r.connIf r.wire c; { r with dev := x.1, wire := x.2 }
-
-/-- `std::ostream::flush` on `out()` (`pubsync`) -/
-def Resp.sync (r : Resp) : Resp :=
-  let r := r.requestStream
-  match r.gz with
-  | some g => let x := g.sync; { r with gz := some x.1 }.belowGz x.2
-  | none =>
-    match r.copy with
-    | some k => let x := k.sync; { r with copy := some x.1 }.intoDev x.2
-    | none => let x := r.dev.sync r.connIf r.wire; { r with dev := x.1, wire := x.2 }
-
-/-- `response::setbuf` -/
-def Resp.setbuf (r : Resp) (n : Int) : Resp :=
-  let n := if n < 0 then -1 else n
-  let r := { r with requiredBufferSize := n }
-  if r.ostreamRequested then
-    let size := if n < 0 then (if r.mode.isAsync then r.cfg.asyncOutputBuffer else r.cfg.outputBuffer) else n.toNat
-    let x := r.dev.setbuf r.connIf r.wire size
-    { r with dev := x.1, wire := x.2 }
-  else r
-
-/-- `response::full_asynchronous_buffering(v)`: acts on `d->buffered`, which is the device in use only in the asynchronous modes -/
-def Resp.setFullBuffering (r : Resp) (v : Bool) : Resp :=
-  if r.mode.isAsync && r.ostreamRequested then
-    let x := r.dev.setFullBuffering r.connIf r.wire v
-    { r with dev := x.1, wire := x.2, asyncFullBuffering := v }
-  else { r with asyncFullBuffering := v }
-
-/-- `response::finalize`: `out()`, then `close()` on every buffer from the top down -/
-def Resp.finalize (r : Resp) : Resp :=
-  if r.finalized then r
-  else
-    let r := r.requestStream
-    let r := match r.gz with
-      | some g => let x := g.close; { r with gz := some x.1 }.belowGz x.2
-      | none => r
-    let r := match r.copy with
-      | some k => let x := k.close; { r with copy := some x.1 }.intoDev x.2
-      | none => r
-    let x := r.dev.close r.connIf r.wire
-    { r with dev := x.1, wire := x.2, finalized := true }
-
-/-- `connection::async_write_response`: `flush_async_chunk`, then `async_write` if data is pending
-(the application continues only from the completion handler, so the model runs the event loop to completion) -/
-def Resp.asyncWriteResponse (r : Resp) : Resp :=
-  let x := r.dev.flush r.connIf r.wire
-  let r := { r with dev := x.1, wire := x.2.1 }
-  if !x.2.2 || r.wire.conn.pending.isEmpty then r
-  else { r with wire := r.wire.asyncWriteEmpty }
-
-/-- `context::async_flush_output`.  Before `out()` was ever called the device has no connection yet
-(`conn_.lock()` fails, `flush_async_chunk` returns -1) and the handler is posted at once: nothing is sent. -/
-def Resp.asyncFlush (r : Resp) : Resp := if r.ostreamRequested then r.asyncWriteResponse else r
-
-/-- what `http::context` does when the application is done -/
-def Resp.complete (r : Resp) : Resp :=
-  let r := r.finalize
-  if r.mode.isAsync then r.asyncWriteResponse else r
-
-def decOf (n : Nat) : Bytes := decDigits n
-
-def statusText (code : Nat) : Bytes :=
-  match Gen.statusTable.find? (·.1 = code) with
-  | some (_, t) => b t
-  | none => b Gen.statusUnknown
-
-/-- page cache as seen through `cache_interface` (keys are never evicted in the harness configuration) -/
-abbrev PageCache := List (String × Bytes)
-
-def PageCache.fetch (c : PageCache) (key : String) : Option Bytes := (c.find? (·.1 == key)).map (·.2)
-def PageCache.store (c : PageCache) (key : String) (v : Bytes) : PageCache := (key, v) :: c.filter (·.1 != key)
-
-structure Run where
-  resp : Resp
-  cache : PageCache
-  /-- page read back through `cache_interface` right after `store_page` -/
-  cacheCopy : Option Bytes := none
-  /-- `fetch_page` hit: the application returns -/
-  stopped : Bool := false
-
-def putAll (r : Resp) : Bytes → Resp
-  | [] => r
-  | c :: cs => putAll (r.putc c) cs
-
-def Run.step (x : Run) (op : Op) : Run :=
-  if x.stopped then x else
-  let r := x.resp
-  match op with
-  | .write n seed => { x with resp := r.write (genBytes seed n) }
-  | .lit bs => { x with resp := r.write bs }
-  | .putc n seed => { x with resp := putAll r.requestStream (genBytes seed n) }
-  | .out => { x with resp := r.requestStream }
-  | .flush => { x with resp := if r.mode.isAsync then r.asyncFlush else r.sync }
-  | .setbuf n => { x with resp := r.setbuf n }
-  | .fullBuf v => { x with resp := r.setFullBuffering v }
-  | .setHeader n v => { x with resp := { r with headers := r.headers.set n v } }
-  | .addHeader n v => { x with resp := { r with headers := r.headers.add n v } }
-  | .cookie n v => { x with resp := { r with headers := r.headers.addRaw (b Gen.cookiePrefix ++ n ++ [61] ++ v ++ b Gen.cookieSuffix) } }
-  | .contentLength n => { x with resp := { r with headers := r.headers.set sContentLengthName (decOf n) } }
-  | .status n => { x with resp := { r with headers := r.headers.set sStatus (decOf n ++ [32] ++ statusText n) } }
-  | .fetchPage key =>
-    let gzip := r.needGzip
-    let r := { r with pageCompressionUsed := gzip }
-    match x.cache.fetch ((if gzip then "_Z:" else "_U:") ++ key) with
-    | some page =>
-      let r := if gzip then { r with headers := r.headers.set sContentEncoding sGzip } else r
-      { x with resp := r.write page, stopped := true }
-    | none => { x with resp := { r with copyToCache := true } }
-  | .storePage key =>
-    let r := r.finalize
-    let rkey := (if r.pageCompressionUsed then "_Z:" else "_U:") ++ key
-    let data : Bytes := if !r.copyToCache || !r.ostreamRequested then [] else
-      match r.copy with
-      | some k => k.getstr.1
-      | none => []
-    let r := match r.copy with
-      | some k => { r with copy := some k.getstr.2 }
-      | none => r
-    let cache := x.cache.store rkey data
-    { x with resp := r, cache, cacheCopy := cache.fetch rkey }
-
-/-- one request: returns the run after the context completed the response -/
-def runCase (cfg : Config) (cache : PageCache) (cs : Case) : Run :=
-  let x := cs.script.foldl Run.step { resp := Resp.new cfg cs, cache }
-  { x with resp := x.resp.complete }
+/-- with the stand-in deflater of the harness -/
+def runCase (cfg : Config) (cache : PageCache) (cs : Case) : CaseResult stubDeflater := runCaseWith stubDeflater cfg cache cs
 
 end Cppcms.C03
